@@ -42,7 +42,7 @@ func runC09(c *Ctx) {
 	c.Rule("C09.R7", "a client stream is removed from its connection's stream table before its listeners are notified", 1)
 	defer c09UnregisterBeforeNotify(c)
 	c.Rule("C09.R8", "a client stream is reset only with a reason for which the pool closes the connection, or where the connection is known to be closed", 6)
-	defer c09ResetCloses(c)
+	defer c09ResetCloses(c, "C09.R8")
 	defer c09CloseHandlerUnconditional(c)
 	c.NotDecided = append(c.NotDecided, "equality of counters with the truth over arbitrary histories", "idle-timeout / keep-alive behaviour", "the multiplex and binding pools (connections are shared or bound by design, not leased)")
 	c.Assumptions = append(c.Assumptions, "connection.Close delivers its close event synchronously to the registered listeners (so `closed` is set before OnDestroyStream re-pools)", "sync.Mutex semantics")
